@@ -107,6 +107,8 @@ pub fn build_ops(t: &TreeDesc) -> Vec<Op> {
         }
         ops.push(Op::MkdirP(p.clone()));
         ops.push(Op::WriteAll(format!("{}/leaf", p), b"x".to_vec()));
+        // an empty directory opened while the descriptor cap is already exhausted
+        ops.push(Op::MkdirP(format!("{}/empty", p)));
     }
     for (l, t) in links {
         if l != t {
